@@ -291,7 +291,14 @@ func checkC01(t *testing.T, env *report.Env, rep *report.Report) {
 						if c.mutating() {
 							dd, _, _ = OpenFile(dir, s.File)
 						}
+						preState := hx.DumpKey(dd)
 						got := run(dd, caller, c, name)
+						// whatever the call changed, the caller must have been allowed that action on every name that changed
+						for _, n := range changedNames(preState, hx.DumpKey(dd)) {
+							if !model.Allow(ref, c.action(), n) {
+								fs.add("effect-on-unpermitted-name:"+c.Kind, fmt.Sprintf("%s: the call changed %q, on which no rule of the caller allows %s", desc, n, c.action()), s.Hist)
+							}
+						}
 						if got.Class != want.Class || got.Text != want.Text || hx.DumpKey(dd) != wantState {
 							fs.add("allowed-differs:"+c.Kind, fmt.Sprintf("%s: got %v %q state %s; superuser gets %v %q state %s", desc, got.Class, got.Text, hx.DumpKey(dd), want.Class, want.Text, wantState), s.Hist)
 						}
@@ -375,4 +382,24 @@ func httpCall(mux *http.ServeMux, c call, name string) (int, string) {
 	rec := httptest.NewRecorder()
 	mux.ServeHTTP(rec, req)
 	return rec.Code, rec.Body.String()
+}
+
+// changedNames lists the names whose entry differs between two canonical dumps.
+func changedNames(before, after string) []string {
+	var a, b map[string]json.RawMessage
+	json.Unmarshal([]byte(before), &a)
+	json.Unmarshal([]byte(after), &b)
+	var out []string
+	for n, v := range a {
+		if w, ok := b[n]; !ok || !bytes.Equal(v, w) {
+			out = append(out, n)
+		}
+	}
+	for n := range b {
+		if _, ok := a[n]; !ok {
+			out = append(out, n)
+		}
+	}
+	sort.Strings(out)
+	return out
 }
